@@ -38,12 +38,23 @@ type ssAction struct {
 
 func runStrState(c *core.Ctx) []core.Obligation {
 	b := newOb(c, "R-STRSTATE", "C01", "C14")
-	key := "strstate:json.appendCompactEscapeHTML"
-	fn := c.Lookup("json.appendCompactEscapeHTML")
+	key := "strstate:json.appendCompact"
+	fn := c.Lookup("json.appendCompact")
 	if fn == nil {
-		b.und(key, "-", "json.appendCompactEscapeHTML not found")
+		fn = c.Lookup("json.appendCompactEscapeHTML")
+	}
+	if fn == nil {
+		b.und(key, "-", "json.appendCompact not found")
 		return b.out
 	}
+	// an escapeHTML parameter, if any, is part of the input space
+	var mode *ssa.Parameter
+	for _, p := range fn.Params {
+		if p.Type().Underlying().String() == "bool" {
+			mode = p
+		}
+	}
+	modeVal := true
 	// loop header: the block with boolean φs
 	var header *ssa.BasicBlock
 	var bools []*ssa.Phi
@@ -170,6 +181,13 @@ func runStrState(c *core.Ctx) []core.Obligation {
 				init[phi] = 1
 			} else {
 				init[phi] = 0
+			}
+		}
+		if mode != nil {
+			if modeVal {
+				init[mode] = 1
+			} else {
+				init[mode] = 0
 			}
 		}
 		work := []frame{{bodyEntry, header, init, false}}
@@ -310,8 +328,14 @@ func runStrState(c *core.Ctx) []core.Obligation {
 			case '"':
 				return "outside", map[string]bool{"none": true}
 			case '<', '>', '&':
+				if !modeVal {
+					return "inside", map[string]bool{"none": true}
+				}
 				return "inside", map[string]bool{"escape": true}
 			case 0xE2:
+				if !modeVal {
+					return "inside", map[string]bool{"none": true}
+				}
 				return "inside", map[string]bool{"none": true, "escape": true}
 			}
 			return "inside", map[string]bool{"none": true}
@@ -337,51 +361,67 @@ func runStrState(c *core.Ctx) []core.Obligation {
 			}
 		}
 	}
-	h := map[string]string{enc(init): "outside"}
-	path := map[string]string{enc(init): ""}
-	dec := func(s string) []bool {
-		out := make([]bool, len(s))
-		for i := range s {
-			out[i] = s[i] == '1'
-		}
-		return out
+	modes := []bool{true}
+	if mode != nil {
+		modes = []bool{true, false}
 	}
-	queue := []string{enc(init)}
-	transitions := 0
-	for len(queue) > 0 {
-		s := queue[0]
-		queue = queue[1:]
-		for _, cl := range classes {
-			outs := step(dec(s), cl)
-			if undecided != "" {
-				b.und(key, c.FuncPos(fn), undecided)
-				return b.out
+	total := 0
+	var hLast map[string]string
+	for _, mv := range modes {
+		modeVal = mv
+		modeDesc := ""
+		if mode != nil {
+			modeDesc = fmt.Sprintf(" with %s=%v", mode.Name(), mv)
+		}
+		h := map[string]string{enc(init): "outside"}
+		path := map[string]string{enc(init): ""}
+		dec := func(s string) []bool {
+			out := make([]bool, len(s))
+			for i := range s {
+				out[i] = s[i] == '1'
 			}
-			wantNext, wantActs := ref(h[s], cl)
-			where := fmt.Sprintf("after the byte classes [%s] (lexer state: %s), on %s", strings.TrimSpace(path[s]), h[s], className(cl))
-			if len(outs) == 0 {
-				b.und(key, c.FuncPos(fn), "no path back to the loop header "+where)
-				return b.out
-			}
-			for _, o := range outs {
-				transitions++
-				if !wantActs[o.action] {
-					b.bad(key, c.FuncPos(fn), fmt.Sprintf("%s the loop performs %q where the string lexer allows %v: whitespace is deleted only outside strings, HTML characters are escaped only inside them", where, o.action, keysOf(wantActs)))
+			return out
+		}
+		queue := []string{enc(init)}
+		transitions := 0
+		for len(queue) > 0 {
+			s := queue[0]
+			queue = queue[1:]
+			for _, cl := range classes {
+				outs := step(dec(s), cl)
+				if undecided != "" {
+					b.und(key, c.FuncPos(fn), undecided)
 					return b.out
 				}
-				if prev, ok := h[o.next]; ok {
-					if prev != wantNext {
-						b.bad(key, c.FuncPos(fn), fmt.Sprintf("%s the loop moves to the state (%s) it also uses for %q, but the string lexer is %q there: from then on string boundaries are misjudged (whitespace inside later strings is deleted, or HTML characters outside are escaped)", where, describeState(bools, o.next), prev, wantNext))
+				wantNext, wantActs := ref(h[s], cl)
+				where := fmt.Sprintf("after the byte classes [%s] (lexer state: %s)%s, on %s", strings.TrimSpace(path[s]), h[s], modeDesc, className(cl))
+				if len(outs) == 0 {
+					b.und(key, c.FuncPos(fn), "no path back to the loop header "+where)
+					return b.out
+				}
+				for _, o := range outs {
+					transitions++
+					if !wantActs[o.action] {
+						b.bad(key, c.FuncPos(fn), fmt.Sprintf("%s the loop performs %q where the string lexer allows %v: whitespace is deleted only outside strings, HTML characters are escaped only inside them", where, o.action, keysOf(wantActs)))
 						return b.out
 					}
-					continue
+					if prev, ok := h[o.next]; ok {
+						if prev != wantNext {
+							b.bad(key, c.FuncPos(fn), fmt.Sprintf("%s the loop moves to the state (%s) it also uses for %q, but the string lexer is %q there: from then on string boundaries are misjudged (whitespace inside later strings is deleted, or HTML characters outside are escaped)", where, describeState(bools, o.next), prev, wantNext))
+							return b.out
+						}
+						continue
+					}
+					h[o.next] = wantNext
+					path[o.next] = path[s] + " " + className(cl)
+					queue = append(queue, o.next)
 				}
-				h[o.next] = wantNext
-				path[o.next] = path[s] + " " + className(cl)
-				queue = append(queue, o.next)
 			}
 		}
+		total += transitions
+		hLast = h
 	}
+	h, transitions := hLast, total
 	b.ok(key, c.FuncPos(fn), fmt.Sprintf("%d loop states × %d byte classes (%d transitions) agree with the JSON string lexer", len(h), len(classes), transitions))
 	return b.out
 }
